@@ -59,9 +59,9 @@ Proof. exact SemProofs.eval_deterministic. Qed.
 Print Assumptions eval_deterministic.
 
 (* `of`: none <-> not any; N of = at least N (N > 0); monotone in N;
-   0 of = none (conditions.md, "0 of them") *)
+   0 of = none (conditions.md, "0 of them"; the implementation agrees since
+   commit 2b4649c7) *)
 Theorem of_quantifier_laws : forall en set ak a1 a2,
-  e_fast en = false ->
   (forall q q', eval en (EOf QNone q set ak a1 a2) = v_not (eval en (EOf QAny q' set ak a1 a2))) /\
   (forall q, eval en (EOf QAll q set ak a1 a2) = VBool (forallb truthy (of_items en set ak a1 a2))) /\
   (forall n, 0 < n -> eval en (EOf QExpr (EInt n) set ak a1 a2) = VBool (n <=? count_true (of_items en set ak a1 a2))) /\
@@ -70,12 +70,12 @@ Theorem of_quantifier_laws : forall en set ak a1 a2,
   (forall q, eval en (EOf QExpr (EInt 0) set ak a1 a2) = eval en (EOf QNone q set ak a1 a2)) /\
   (forall q, eval en (EOf QExpr (EInt 1) set ak a1 a2) = eval en (EOf QAny q set ak a1 a2)).
 Proof.
-  intros en set ak a1 a2 doc.
-  split; [exact (none_of_not_any en doc set ak a1 a2)|].
-  split; [exact (of_all en doc set ak a1 a2)|].
-  split; [exact (n_of_at_least en doc set ak a1 a2)|].
-  split; [exact (n_of_monotone en doc set ak a1 a2)|].
-  split; [exact (zero_of_is_none en doc set ak a1 a2) | exact (one_of_is_any en doc set ak a1 a2)].
+  intros en set ak a1 a2.
+  split; [exact (none_of_not_any en set ak a1 a2)|].
+  split; [exact (of_all en set ak a1 a2)|].
+  split; [exact (n_of_at_least en set ak a1 a2)|].
+  split; [exact (n_of_monotone en set ak a1 a2)|].
+  split; [exact (zero_of_is_none en set ak a1 a2) | exact (one_of_is_any en set ak a1 a2)].
 Qed.
 Print Assumptions of_quantifier_laws.
 
@@ -112,10 +112,10 @@ Proof. exact SemProofs.id_renaming_invariance. Qed.
 Print Assumptions id_renaming_invariance.
 
 (* global_and_private.md, for every rule set / buffer / external variables *)
-Theorem global_fail_suppresses : forall tr data globals fast rules g rg i,
+Theorem global_fail_suppresses : forall tr data globals rules g rg i,
   nth_error rules g = Some rg -> r_global rg = true ->
-  nth_error (verdicts tr data globals fast rules) g = Some false ->
-  In i (fst (run tr data globals fast rules)) \/ In i (snd (run tr data globals fast rules)) ->
+  nth_error (verdicts tr data globals rules) g = Some false ->
+  In i (fst (run tr data globals rules)) \/ In i (snd (run tr data globals rules)) ->
   r_ns (nth i rules (mkRule 0 false false [] (EBool false))) <> r_ns rg.
 Proof. exact global_fail_suppresses_run. Qed.
 Print Assumptions global_fail_suppresses.
@@ -125,9 +125,9 @@ Theorem private_hidden : forall rules vs i,
 Proof. exact RuleSetProofs.private_hidden. Qed.
 Print Assumptions private_hidden.
 
-Theorem private_rules_still_evaluated : forall tr data globals fast flags rules,
-  verdicts tr data globals fast (map (fun r => set_private (flags r) r) rules)
-  = verdicts tr data globals fast rules.
+Theorem private_rules_still_evaluated : forall tr data globals flags rules,
+  verdicts tr data globals (map (fun r => set_private (flags r) r) rules)
+  = verdicts tr data globals rules.
 Proof. exact verdicts_ignore_private. Qed.
 Print Assumptions private_rules_still_evaluated.
 
@@ -147,18 +147,14 @@ Theorem pratt_roundtrip : forall bp t min,
 Proof. exact PrecProofs.pratt_roundtrip. Qed.
 Print Assumptions pratt_roundtrip.
 
-(* the model of the implementation's `N of` fast path leaves the documented
-   meaning exactly for N <= 0 (findings 6, 11): refuted in general, proved
-   under the guard 0 < N *)
-Theorem of_fast_path_equiv_loop : forall fast qv set ak items z,
-  qv = VInt z -> 0 < z -> v_of fast QExpr qv set ak items = v_of false QExpr qv set ak items.
-Proof. exact SemProofs.of_fast_path_equiv_loop. Qed.
+(* the two ways the implementation evaluates `N of <set>` - the host function
+   pat_range_match when the pattern ids are consecutive, the emitted loop
+   otherwise - agree for EVERY N, zero and negative included (this was refuted
+   for N <= 0, findings 6 and 11, before commits 2b4649c7 / bf5119e4) *)
+Theorem of_fast_path_equiv_loop : forall z ms,
+  v_of QExpr (VInt z) (map (fun m => VBool (matched m)) ms) = VBool (pat_range_match z ms).
+Proof. exact QuirksProofs.of_fast_path_equiv_loop. Qed.
 Print Assumptions of_fast_path_equiv_loop.
-
-Theorem of_fast_path_equiv_loop_refuted :
-  exists set items, v_of true QExpr (VInt 0) set ANone items <> v_of false QExpr (VInt 0) set ANone items.
-Proof. exact SemProofs.of_fast_path_equiv_loop_refuted. Qed.
-Print Assumptions of_fast_path_equiv_loop_refuted.
 
 (* the compiler's constant folding (checked i64 arithmetic since commit
    8b83ae6a; it went through f64 before: finding 10) never changes the value
